@@ -80,8 +80,19 @@ theorem Rel.init : Rel ({} : State σ) ({} : Spec σ) := ⟨rfl, rfl, rfl, rfl, 
 
 theorem step_plain_out (v : Variant) (cfg : Config) (env : StyleEnv σ) (s : State σ) (op : Op σ)
     (hc : isCapture op = false) (he : isExport op = false) : (step v cfg env s op).2 = .none := by
-  cases op <;> simp_all [isCapture, isExport, step]
-  all_goals (try split) <;> rfl
+  cases op with
+  | print segs => rfl
+  | line c => simp only [step]; split <;> rfl
+  | control c => rfl
+  | bell => rfl
+  | clear b => rfl
+  | showCursor b => simp only [step]; split <;> rfl
+  | beginCapture => simp [isCapture] at hc
+  | endCapture => simp [isCapture] at hc
+  | enterBuffer => simp [isCapture] at hc
+  | exitBuffer => simp [isCapture] at hc
+  | exportText a b => simp [isExport] at he
+  | exportHtml a b o => simp [isExport] at he
 
 theorem checkBuffer_outside_record (v : Variant) (cfg : Config) (env : StyleEnv σ) (s : State σ)
     (hv : v.recordInRender = false) (h : s.index = 0) :
@@ -101,16 +112,23 @@ theorem step_outside_record (v : Variant) (cfg : Config) (env : StyleEnv σ) (s 
     intro codes
     unfold Console.control
     split
-    · rw [checkBuffer_outside_record v cfg env _ hv hi]; simp [hb]
+    · have := checkBuffer_outside_record v cfg env
+        { s with buffer := s.buffer ++ [{ text := codes, style := none, control := true }] } hv hi
+      simpa [hb] using this
     · simp
   cases op with
   | print segs =>
     simp only [step, appended]
-    rw [checkBuffer_outside_record v cfg env _ hv (by simp only; omega)]; simp [hb]
+    have e : s.index + 1 - 1 = 0 := by omega
+    have := checkBuffer_outside_record v cfg env
+      { s with index := s.index + 1 - 1, buffer := s.buffer ++ segs } hv e
+    simpa [hb] using this
   | line count =>
     simp only [step, appended]
     split
-    · rw [checkBuffer_outside_record v cfg env _ hv hi]; simp [hb]
+    · have := checkBuffer_outside_record v cfg env
+        { s with buffer := s.buffer ++ [{ text := List.replicate count '\n', style := none, control := false }] } hv hi
+      simpa [hb] using this
     · simp
   | control codes => exact hctl codes
   | bell => exact hctl _
@@ -122,6 +140,8 @@ theorem step_outside_record (v : Variant) (cfg : Config) (env : StyleEnv σ) (s 
     · simp
   | beginCapture => simp [isCapture] at hc
   | endCapture => simp [isCapture] at hc
+  | enterBuffer => simp [isCapture] at hc
+  | exitBuffer => simp [isCapture] at hc
   | exportText clr styles => simp [isExport] at he
   | exportHtml clr inline o => simp [isExport] at he
 
@@ -151,7 +171,7 @@ theorem frames_flatten_cons (f : List (Segment σ)) (rest : List (List (Segment 
 /-- One operation: the model does what the specification says, provided `end_capture` finds an open block. -/
 theorem step_refines (v : Variant) (cfg : Config) (env : StyleEnv σ) (s : State σ) (sp : Spec σ) (op : Op σ)
     (hm : v.captureMarks = true) (hv : v.recordInRender = false) (h : Rel s sp)
-    (hend : op = .endCapture → sp.frames ≠ []) :
+    (hend : op = .endCapture → sp.frames ≠ []) (hctx : isBufferCtx op = false) :
     (step v cfg env s op).2 = (specStep v cfg env sp op).2 ∧ Rel (step v cfg env s op).1 (specStep v cfg env sp op).1 := by
   by_cases hc : isCapture op = true
   · cases op <;> simp [isCapture] at hc
@@ -176,7 +196,7 @@ theorem step_refines (v : Variant) (cfg : Config) (env : StyleEnv σ) (s : State
           · rw [checkBuffer_index]; simpa using h0
           · simp only [List.reverse_nil, List.flatten_nil]
             exact (checkBuffer_outside v cfg env _ h0).1
-          · rw [checkBuffer_marks]; rfl
+          · rw [checkBuffer_marks]
           · rw [checkBuffer_outside_record v cfg env _ hv h0]; simp [h.record]
           · rw [(checkBuffer_outside v cfg env _ h0).2.2]; simp [written_cons, h.file]
         · have hne : s.index - 1 ≠ 0 := by
@@ -185,6 +205,8 @@ theorem step_refines (v : Variant) (cfg : Config) (env : StyleEnv σ) (s : State
             exact hr (List.length_eq_zero_iff.mp this)
           rw [checkBuffer_inside _ _ _ _ (by simp only; exact hne)]
           exact ⟨hidx, rfl, rfl, h.record, h.file⟩
+    · simp [isBufferCtx] at hctx
+    · simp [isBufferCtx] at hctx
   · have hc' : isCapture op = false := by simpa using hc
     have hspec : specStep v cfg env sp op =
         (if isExport op then
@@ -220,6 +242,22 @@ theorem step_refines (v : Variant) (cfg : Config) (env : StyleEnv σ) (s : State
           · rw [step_marks v cfg env s op hc', h.marks, hf]; rfl
           · rw [step_inside_record' v cfg env s op hi hc' he', h.record]
 
+theorem specStep_frames_length (v : Variant) (cfg : Config) (env : StyleEnv σ) (sp : Spec σ) (op : Op σ)
+    (hc : isCapture op = false) : (specStep v cfg env sp op).1.frames.length = sp.frames.length := by
+  cases op with
+  | beginCapture => simp [isCapture] at hc
+  | endCapture => simp [isCapture] at hc
+  | enterBuffer => simp [isCapture] at hc
+  | exitBuffer => simp [isCapture] at hc
+  | exportText a b => simp [specStep, isExport]
+  | exportHtml a b o => simp [specStep, isExport]
+  | print segs => simp only [specStep, isExport]; cases sp.frames <;> simp
+  | line c => simp only [specStep, isExport]; cases sp.frames <;> simp
+  | control c => simp only [specStep, isExport]; cases sp.frames <;> simp
+  | bell => simp only [specStep, isExport]; cases sp.frames <;> simp
+  | clear b => simp only [specStep, isExport]; cases sp.frames <;> simp
+  | showCursor b => simp only [specStep, isExport]; cases sp.frames <;> simp
+
 /-- Every well-nested history (capture blocks never closed more often than opened; possibly left open; nested
 to any depth) — the model's outputs are the specification's and the final states correspond. -/
 theorem run_refines (v : Variant) (cfg : Config) (env : StyleEnv σ) (hm : v.captureMarks = true)
@@ -233,22 +271,23 @@ theorem run_refines (v : Variant) (cfg : Config) (env : StyleEnv σ) (hm : v.cap
       intro e hf
       subst e
       simp [wellNested, hf] at hw
-    obtain ⟨h1, h2⟩ := step_refines v cfg env s sp op hm hv h hend
+    have hctx : isBufferCtx op = false := by
+      cases op <;> first | rfl | (simp [wellNested] at hw)
+    obtain ⟨h1, h2⟩ := step_refines v cfg env s sp op hm hv h hend hctx
     have hw' : wellNested (specStep v cfg env sp op).1.frames.length rest = true := by
-      cases op with
-      | beginCapture => simpa [wellNested, specStep] using hw
-      | endCapture =>
-        cases hf : sp.frames with
-        | nil => exact absurd hf (hend rfl)
-        | cons f fr => simp only [wellNested, hf, List.length_cons] at hw; simpa [specStep, hf] using hw.2
-      | print segs => simp only [wellNested] at hw; simp only [specStep, isExport]; cases sp.frames <;> simpa using hw
-      | line c => simp only [wellNested] at hw; simp only [specStep, isExport]; cases sp.frames <;> simpa using hw
-      | control c => simp only [wellNested] at hw; simp only [specStep, isExport]; cases sp.frames <;> simpa using hw
-      | bell => simp only [wellNested] at hw; simp only [specStep, isExport]; cases sp.frames <;> simpa using hw
-      | clear b => simp only [wellNested] at hw; simp only [specStep, isExport]; cases sp.frames <;> simpa using hw
-      | showCursor b => simp only [wellNested] at hw; simp only [specStep, isExport]; cases sp.frames <;> simpa using hw
-      | exportText a b => simp only [wellNested] at hw; simpa [specStep, isExport] using hw
-      | exportHtml a b o => simp only [wellNested] at hw; simpa [specStep, isExport] using hw
+      by_cases hc : isCapture op = true
+      · cases op <;> simp [isCapture] at hc
+        · simpa [wellNested, specStep] using hw
+        · cases hf : sp.frames with
+          | nil => exact absurd hf (hend rfl)
+          | cons f fr =>
+            simp only [wellNested, hf, List.length_cons, Bool.and_eq_true] at hw
+            simpa [specStep, hf] using hw.2
+        · simp [isBufferCtx] at hctx
+        · simp [isBufferCtx] at hctx
+      · have hc' : isCapture op = false := by simpa using hc
+        rw [specStep_frames_length v cfg env sp op hc']
+        cases op <;> first | (simpa [wellNested] using hw) | (simp [isCapture] at hc')
     obtain ⟨r1, r2⟩ := run_refines v cfg env hm hv rest _ _ h2 hw'
     exact ⟨by simp only [run, specRun, h1, r1], by simpa only [run, specRun] using r2⟩
 
@@ -259,23 +298,30 @@ def depthDelta : List (Op σ) → Int
   | [] => 0
   | .beginCapture :: rest => 1 + depthDelta rest
   | .endCapture :: rest => -1 + depthDelta rest
+  | .enterBuffer :: rest => 1 + depthDelta rest
+  | .exitBuffer :: rest => -1 + depthDelta rest
   | _ :: rest => depthDelta rest
 
 theorem step_index (v : Variant) (cfg : Config) (env : StyleEnv σ) (s : State σ) (op : Op σ) :
     (step v cfg env s op).1.index = s.index + depthDelta [op] := by
-  have hctl : ∀ codes, (Console.control v cfg env s codes).index = s.index := by
+  have hctl : ∀ codes, (Console.control v cfg env s codes).index = s.index + 0 := by
     intro codes; unfold Console.control; split
-    · rw [checkBuffer_index]
-    · rfl
+    · rw [checkBuffer_index]; simp
+    · simp
   cases op with
   | print segs => simp only [step, checkBuffer_index, depthDelta]; omega
   | line c => simp only [step, depthDelta]; split <;> simp [checkBuffer_index]
-  | control c => simp [step, depthDelta, hctl]
-  | bell => simp [step, depthDelta, hctl]
-  | clear b => simp [step, depthDelta, hctl]
-  | showCursor b => simp only [step, depthDelta]; split <;> simp [hctl]
+  | control c => exact hctl _
+  | bell => exact hctl _
+  | clear b => exact hctl _
+  | showCursor b =>
+    simp only [step, depthDelta]; split
+    · exact hctl _
+    · simp
   | beginCapture => simp only [step, depthDelta]; omega
   | endCapture => simp only [step, checkBuffer_index, depthDelta]; omega
+  | enterBuffer => simp only [step, depthDelta]; omega
+  | exitBuffer => simp only [step, checkBuffer_index, depthDelta]; omega
   | exportText a b => simp only [step, depthDelta]; split <;> simp
   | exportHtml a b o => simp only [step, depthDelta]; split <;> simp
 
@@ -291,8 +337,20 @@ theorem exec_index (v : Variant) (cfg : Config) (env : StyleEnv σ) (ops : List 
 /-- No operation can fail except an export on a console that does not record. -/
 theorem step_total (v : Variant) (cfg : Config) (env : StyleEnv σ) (s : State σ) (op : Op σ)
     (h : (step v cfg env s op).2 = .assertionError) : isExport op = true ∧ cfg.record = false := by
-  cases op <;> simp_all [step, isExport]
-  all_goals (first | (split at h <;> simp_all) | skip)
+  by_cases he : isExport op = true
+  · refine ⟨he, ?_⟩
+    cases hr : cfg.record with
+    | false => rfl
+    | true => cases op <;> simp [isExport] at he <;> simp [step, hr] at h
+  · have he' : isExport op = false := by simpa using he
+    by_cases hc : isCapture op = true
+    · cases op <;> simp [isCapture] at hc
+      · simp [step] at h
+      · simp [step] at h
+      · simp [step] at h
+      · simp [step] at h
+    · rw [step_plain_out v cfg env s op (by simpa using hc) he'] at h
+      cases h
 
 /-- File writes happen only at depth zero: a step that starts and ends at a non-zero depth (of either sign)
 leaves the file alone. -/
@@ -300,6 +358,10 @@ theorem step_file_nonzero (v : Variant) (cfg : Config) (env : StyleEnv σ) (s : 
     (hi : s.index ≠ 0) (hi' : (step v cfg env s op).1.index ≠ 0) : (step v cfg env s op).1.file = s.file := by
   by_cases hc : isCapture op = true
   · cases op <;> simp [isCapture] at hc
+    · rfl
+    · simp only [step, checkBuffer_index] at hi'
+      simp only [step]
+      rw [checkBuffer_inside _ _ _ _ (by simp only; exact hi')]
     · rfl
     · simp only [step, checkBuffer_index] at hi'
       simp only [step]
@@ -319,6 +381,6 @@ theorem step_end_unbalanced (v : Variant) (cfg : Config) (env : StyleEnv σ) (s 
   simp only [step, hstart, List.drop_zero, List.take_zero, renderBuffer, checkBuffer_index, checkBuffer_marks, hmk']
   refine ⟨trivial, trivial, ?_, trivial⟩
   unfold checkBuffer
-  split <;> rfl
+  by_cases h0 : (s.index - 1 == 0) = true <;> simp [h0]
 
 end RichModel.Console
